@@ -237,39 +237,22 @@ theorem lookup_other (prog : List Term) (hp : ∀ c ∈ prog, clauseS fl c = tru
 theorem disjuncts_horn (b : Term) (h : bodyS fl b = true) : SLD.disjuncts b = [b] := by
   unfold SLD.disjuncts
   split
-  · rename_i c t e
-    exfalso
-    have : SLD.conjuncts (SLD.mk2 ";" (SLD.mk2 "->" c t) e) = [SLD.mk2 ";" (SLD.mk2 "->" c t) e] := by
-      simp [SLD.conjuncts, SLD.wrapVar, SLD.mk2]
-    simp only [SLD.mk2] at this
-    simp only [bodyS, this, List.all_cons, List.all_nil, Bool.and_true] at h
-    rcases goalS_cases h with h | h
-    · simp [SLD.mk2] at h
-    rcases stepGoal_cases h with h | ⟨_, x, hx⟩
-    rotate_left
-    · simp [SLD.mk2] at hx
-    rcases hornGoal_shape h with ⟨f, hf', _⟩ | ⟨a, b, hab⟩ | ⟨f, as, hfa, hu, _⟩
-    · cases hf'
-    · simp at hab
-    · simp only [Term.app.injEq] at hfa
-      obtain ⟨rfl, rfl⟩ := hfa
-      exact reserved_not_user hu (by decide)
-  · rename_i a b' _
+  · rfl
+  · rename_i a b' hna
     exfalso
     have : SLD.conjuncts (.app ";" (.cons a (.cons b' .nil))) = [.app ";" (.cons a (.cons b' .nil))] := by
       simp [SLD.conjuncts, SLD.wrapVar]
     simp only [bodyS, this, List.all_cons, List.all_nil, Bool.and_true] at h
     rcases goalS_cases h with h | h
     · simp [SLD.mk2] at h
-    rcases stepGoal_cases h with h | ⟨_, x, hx⟩
-    rotate_left
-    · simp [SLD.mk2] at hx
-    rcases hornGoal_shape h with ⟨f, hf', _⟩ | ⟨a, b, hab⟩ | ⟨f, as, hfa, hu, _⟩
-    · cases hf'
-    · simp at hab
-    · simp only [Term.app.injEq] at hfa
-      obtain ⟨rfl, rfl⟩ := hfa
-      exact reserved_not_user hu (by decide)
+    rcases stepGoal_cases h with h | ⟨_, hc⟩
+    · rw [not_horn_reserved (by decide) (by decide)] at h; cases h
+    · cases hc with
+      | call x' hx' => simp at hx'
+      | ite c t e hx' =>
+        simp only [Term.app.injEq, Args.cons.injEq, true_and, and_true] at hx'
+        exact hna c t hx'.1
+      | ifthen c t hx' => simp at hx'
   · rfl
 
 /-- the clause as the reference stores it: `Head :- Body` -/
